@@ -559,3 +559,54 @@ def check(ctx, rep, c):
                                  'guard_comparisons': hy.n_guard + hy2.n_guard, 'aligned_cases': hy.n_aligned + hy2.n_aligned}
     rep.floor('normalised uses of modular quantities', hy.n_periodic + hy2.n_periodic, 3)
     rep.floor('aligned day-to-day differences (seam cases)', hy.n_aligned, 6)
+    calendar_offsets(ctx, rep, c, periods)
+
+
+def calendar_offsets(ctx, rep, c, periods, rule='R1.2'):
+    """The three tabulated days are interpolated at the day fraction m in [0, 1).  A term of the calendar date (year, month, day)
+    added to that fraction - a Delta-T correction, say - moves the interpolation point; over the property's dates (1600..2399) it has
+    to stay a small fraction of a day, or the position is extrapolated far outside the table."""
+    from .. import domains as D
+    CAL = {'year': (1600.0, 2399.0), 'month': (1.0, 12.0), 'day': (1.0, 31.0), 'ordinal': (1.0, 366.0)}
+
+    def cal_atom(x):
+        return x and x[0] == 'app' and 'Datelike' in x[1] and x[1].rsplit('::', 1)[-1] in CAL
+    n = 0
+    seen = set()
+    for k, v in c.values.items():
+        cals = {x for x in subterms(v) if cal_atom(x)}
+        if not cals:
+            continue
+        env = {x: CAL[x[1].rsplit('::', 1)[-1]] for x in cals}
+        found = False
+        for x in subterms(v):
+            if not (x and x[0] == 'bin' and x[1] in ('Add', 'Sub')):
+                continue
+            for frac, off in ((x[2], x[3]), (x[3], x[2])):
+                if any(y in cals for y in subterms(frac)) or not any(y in cals for y in subterms(off)):
+                    continue
+                if not any(y and y[0] == 'app' and periods.get(y[1]) == 1.0 for y in subterms(frac)):
+                    continue
+                # the offset must be a function of the calendar date alone
+                atoms = [y for y in subterms(off) if y and y[0] in ('param', 'field', 'mapget', 'app') and not cal_atom(y)
+                         and not (y[0] == 'app' and (y[1].endswith('::from') or y[1] in ('powi', 'powf', 'abs', 'floor')))]
+                atoms = [y for y in atoms if not any(z in cals for z in subterms(y)) or y[0] != 'app']
+                found = True
+                key = (frac, off)
+                if key in seen:
+                    continue
+                seen.add(key)
+                n += 1
+                lo, hi = D.rng(off, env)
+                if atoms and (lo, hi) == D.TOP:
+                    rep.ob(rule, f'interpolation-point:{k}', None, f'the day fraction is offset by {show(off, maxd=4)[:100]}: not bounded')
+                    continue
+                ok = lo >= -0.05 and hi <= 0.05
+                rep.ob(rule, f'interpolation-point:{k}', ok,
+                       f'calendar-dependent offset of the interpolation point stays within [{lo:.4g}, {hi:.4g}] day' if ok else
+                       f'the interpolation point m is offset by {show(off, maxd=4)[:120]}, a function of the calendar date that ranges over '
+                       f'[{lo:.4g}, {hi:.4g}] days for dates 1600..2399: the three-day table is extrapolated far outside itself')
+        if not found:
+            rep.ob(rule, f'calendar-dependence:{k}', None,
+                   f'the conventional {k} reads the calendar date directly ({sorted(show(x, maxd=2)[:40] for x in cals)[:2]}): not decided')
+    rep.extra['calendar_offsets'] = n
